@@ -132,23 +132,39 @@ func (c *coalescer) flush() {
 	}
 }
 
-func proxyEntryScenario(x *explore.X, depth int) {
+// VerifMartianSession is set by the external test package (c10m_test.go, package h2_test, which may import martian):
+// it serves an intercepting martian.Proxy with HTTP/2 relaying enabled on nw, sends a CONNECT for host through it,
+// completes the TLS handshake with the interceptor (ALPN h2) and returns the client's end of that session.
+var VerifMartianSession func(nw *simnet.Net, host string, roots *x509.CertPool, idleTimeout time.Duration) (net.Conn, func(), error)
+
+func proxyEntryScenario(x *explore.X, depth int) { entryScenario(x, depth, false) }
+
+// entryScenario: viaMartian = the session runs through martian.Proxy's CONNECT interception (handleMITM hands the
+// decrypted connection to Config.Proxy) with an idle timeout of 30 s configured - which limits the wait for the NEXT
+// REQUEST of an HTTP/1 session and has no say in how long an HTTP/2 session may be quiet.
+func entryScenario(x *explore.X, depth int, viaMartian bool) {
 	pki := entryPKIOnce()
 	nw := simnet.New()
 	host := fmt.Sprintf("o%d.h2origin.test:443", entrySeq.Add(1))
 	entryNets.Store(host, nw)
 	defer entryNets.Delete(host)
 	ls, _ := nw.Listen(host)
-	lc, _ := nw.Listen("relay-c.test:1")
-	cEnd, _ := nw.DialFrom("client.test", "relay-c.test:1")
-	cc := lc.TryAccept()
-	lc.Close()
-
 	y := &sys{x: x, net: nw, closing: make(chan bool), focus: focus, noRelayLoops: true}
-	u, _ := url.Parse("https://" + host)
-	cfg := &Config{RootCAs: pki.roots, AllowedHostsFilter: func(string) bool { return true }}
 	proxyDone := make(chan error, 1)
-	go func() { proxyDone <- cfg.Proxy(y.closing, cc, u) }()
+	var cEnd net.Conn
+	var stopMartian func()
+	if !viaMartian {
+		lc, _ := nw.Listen("relay-c.test:1")
+		ce, _ := nw.DialFrom("client.test", "relay-c.test:1")
+		cEnd = ce
+		cc := lc.TryAccept()
+		lc.Close()
+		u, _ := url.Parse("https://" + host)
+		cfg := &Config{RootCAs: pki.roots, AllowedHostsFilter: func(string) bool { return true }}
+		go func() { proxyDone <- cfg.Proxy(y.closing, cc, u) }()
+	} else {
+		proxyDone <- nil
+	}
 
 	// the origin: accept, TLS handshake (ALPN h2), then a raw-frame endpoint
 	var sconn *tls.Conn
@@ -164,6 +180,18 @@ func proxyEntryScenario(x *explore.X, depth int) {
 		sconn = tls.Server(c, &tls.Config{Certificates: []tls.Certificate{pki.leaf}, NextProtos: []string{"h2"}})
 		hsErr = sconn.Handshake()
 	}()
+	if viaMartian {
+		if VerifMartianSession == nil {
+			x.Failf("harness/no-martian-session", "the external test package did not register VerifMartianSession")
+			return
+		}
+		c, stop, err := VerifMartianSession(nw, host, pki.roots, 30*time.Second)
+		if err != nil {
+			x.Failf("harness/martian-session", "%v", err)
+			return
+		}
+		cEnd, stopMartian = c, stop
+	}
 	synctest.Wait()
 	select {
 	case <-hsDone:
@@ -182,6 +210,9 @@ func proxyEntryScenario(x *explore.X, depth int) {
 		close(y.closing)
 		cEnd.Close()
 		sconn.Close()
+		if stopMartian != nil {
+			stopMartian()
+		}
 		synctest.Wait()
 		for _, c := range nw.Conns() {
 			c.Close()
@@ -195,12 +226,22 @@ func proxyEntryScenario(x *explore.X, depth int) {
 	}()
 
 	// ---- the first flight -------------------------------------------------------------------------------
-	iws := []int{-1, 8, 1000}[x.ChooseFree("client-initial-window", 3)]
-	mfs := []int{-1, 20000}[x.ChooseFree("client-max-frame-size", 2)]
-	connWU := []int{0, 100000}[x.ChooseFree("client-connection-window-update", 2)]
+	iws, mfs, connWU := -1, -1, 0
+	if viaMartian {
+		iws = []int{-1, 8}[x.ChooseFree("client-initial-window", 2)]
+	} else {
+		iws = []int{-1, 8, 1000}[x.ChooseFree("client-initial-window", 3)]
+		mfs = []int{-1, 20000}[x.ChooseFree("client-max-frame-size", 2)]
+		connWU = []int{0, 100000}[x.ChooseFree("client-connection-window-update", 2)]
+	}
 	// where the flight is cut: 0 every piece its own segment with quiescence in between; 1 preface | rest;
 	// 2 preface+SETTINGS | rest; 3 everything in one segment; 4 every piece its own segment, no waiting in between
-	cut := x.ChooseFree("first-flight-segmentation", 5)
+	cut := 0
+	if viaMartian {
+		cut = []int{0, 3}[x.ChooseFree("first-flight-segmentation", 2)]
+	} else {
+		cut = x.ChooseFree("first-flight-segmentation", 5)
+	}
 	var ss []http2.Setting
 	if iws >= 0 {
 		ss = append(ss, http2.Setting{ID: http2.SettingInitialWindowSize, Val: uint32(iws)})
@@ -265,6 +306,9 @@ func proxyEntryScenario(x *explore.X, depth int) {
 	select {
 	case err := <-proxyDone:
 		proxyDone <- err
+		if viaMartian {
+			break // (nothing was started here: the interceptor runs Config.Proxy)
+		}
 		x.Failf("relay-terminated", "Config.Proxy returned after the first flight (cut %d): %v", cut, err)
 		return
 	default:
